@@ -26,7 +26,7 @@ def _has_restore(ops):
     return any(o["op"] == "restore" for o in ops)
 
 
-def run_replica(ops, mask):
+def run_replica(ops, mask, timeout=None):
     """segments separated by crash ops; only the store survives a crash"""
     results = []
     store = {}
@@ -39,9 +39,9 @@ def run_replica(ops, mask):
         into = ops[start - 1].get("into", "fresh") if start > 0 else "first"
         kw = {"store": store, "stop_on_crash": True, "final_audit": end is None}
         if into == "alt":
-            r = procs.alt_zygote(ALT_HASHSEED).call("child_all", [chunk, kw], shims=mask)
+            r = procs.alt_zygote(ALT_HASHSEED).call("child_all", [chunk, kw], shims=mask, timeout=timeout)
         else:
-            r = procs.run_child(procs._child_all_kw, (chunk, kw), shims=mask)
+            r = procs.run_child(procs._child_all_kw, (chunk, kw), shims=mask, timeout=timeout)
         results += r["results"]
         store = r["store"]
         audit = r.get("audit")
@@ -67,14 +67,28 @@ def restore_equals_snapshot(ops, run, note=""):
     return None
 
 
-def raw_restore_check(ops):
+def raw_restore_check(ops, hits=None):
     """oracle (iii) once more with *no* neutraliser active: whatever a query may leave behind on one restored copy
     (the recorded write-back of C09-KF1 does), unpacking the same string again must still give what was packed.
     Only (iii) is evaluated in this execution – lock-step is not (primary aliases and replica copies legitimately
-    drift apart once a copy absorbs state)."""
+    drift apart once a copy absorbs state).
+
+    Without the neutraliser a model may be left in a state no pristine reference vetted, and the library's built-in
+    (beta) solver – which the generator only keeps in a program when it terminates in the pristine reference – need not
+    terminate on it (seed 1 / run 1347: evaluate names a compound id, the write-back turns the model into one on which
+    puan_rspy's solve() loops).  No property speaks about that; such an execution is cut short and repeated with the
+    built-in solver's requests served by the scripted peer, which leaves oracle (iii) exactly as it is."""
     if not any(o["op"] == "restore" for o in ops):
         return None
-    rep = run_replica(ops, ())
+    tmo = engine.raw_timeout(ops)
+    try:
+        rep = run_replica(ops, (), timeout=tmo)
+    except procs.ChildTimeout:
+        if tmo is None:
+            raise
+        if hits is not None:
+            hits["c17:raw execution repeated with the peer (built-in solver did not terminate on written-back state)"] = 1
+        rep = run_replica(engine.without_builtin_solver(ops), ())
     for k, op in enumerate(ops):
         if op["op"] == "snapshot" and k < len(rep["results"]) and "snap" not in rep["results"][k]:
             return None
@@ -362,7 +376,7 @@ class C17:
         div = lockstep(ops, primary, replica)
         hits = {}
         if div is None and case["meta"].get("raw_iii"):
-            div = raw_restore_check(ops)
+            div = raw_restore_check(ops, hits)
             hits["c17:restore==packed also without neutralisers"] = 1
         return {"divergence": div, "sut": replica, "checked": len(ops), "hits": hits}
 
